@@ -85,8 +85,13 @@ def step(c, tier=None, seed=None):
                         want = fb
                     if [o["name"] for o in fa] != [o["name"] for o in want]:
                         report("`pna %s`" % cmd["name"], r["cmd"], "entries differ: %s vs %s" % ([o["name"] for o in fa], [o["name"] for o in want])); continue
+                    stripsel = set(X.hx(n) for n in (X.matched(cmd["patterns"], names) or [])) if cmd["name"] == "strip" and cmd["patterns"] else set()
                     for b, a in zip(want, fa):
-                        if cmd["name"] == "strip":
+                        if cmd["name"] == "strip" and cmd["patterns"] and b["name"] not in stripsel:
+                            # `pna strip ARCHIVE FILES...`: an entry the patterns do not select keeps every chunk
+                            if a["extras"] != b["extras"]:
+                                report("`pna strip FILES`", r["cmd"], "entry %s is not selected but its extra chunks changed: %s, before %s" % (a["name"], a["extras"], b["extras"]))
+                        elif cmd["name"] == "strip":
                             keepset = set(ACL_T if cmd["keep"][3] else ()) | set(X.hx(t) for t in (cmd["keep_private"] or []))
                             exp = b["extras"] if cmd["keep_private"] == [] else [x for x in b["extras"] if x[0] in keepset]
                             if a["extras"] != exp:
